@@ -1,6 +1,7 @@
 import GorumsV.Props.C10
 import GorumsV.Tie.C09
 import GorumsV.Generated.Exprs
+import GorumsV.Props.BackoffP
 /-! Tie for C10: connection facts of Tie/C09; digests of connect / reconnect / newNodeStream / receiver / sender /
     newChannel / newContext / dial / connect (node) / NodeStream in Tie/C10Skel.lean; engine reconn checks restarts,
     metadata and the connect callback on the real code. -/
@@ -14,11 +15,26 @@ theorem backoff_forwarded_good : Generated.mgr_forwardsBackoff = true ∧ Genera
     parameters with the configured back-off — in particular no service config (a retry policy would make gRPC replay the
     messages of a stream that has seen no reply yet on a fresh stream: one-way messages delivered twice) -/
 theorem dialOpts_good : Generated.mgr_dialOpts = ["grpc.WithDefaultCallOptions", "grpc.WithConnectParams"] := by decide
+/-- the back-off arithmetic of `reconnect` is the one `Backoff.delay` / `Backoff.sleep` model: start at BaseDelay, multiply
+    while below MaxDelay and retries remain, cap at MaxDelay, scale by 1 ± Jitter, sleep (or leave when the node is closed) -/
+theorem backoffArith_good : Generated.ch_backoffArith =
+    ["delay := float64(backoffCfg.BaseDelay)", "max := float64(backoffCfg.MaxDelay)",
+     "for r := retries; delay < max && r > 0; r-- { delay *= backoffCfg.Multiplier }",
+     "delay = math.Min(delay, max)", "delay *= 1 + backoffCfg.Jitter*(rand.Float64()*2-1)",
+     "select { case <-time.After(time.Duration(delay)): retries++ case <-c.parentCtx.Done(): return }"] := by decide
 end GorumsV.Tie.C10
 section Audit
 open GorumsV.C10
 #print axioms GorumsV.Tie.C10.backoff_forwarded_good
 #print axioms GorumsV.Tie.C10.dialOpts_good
+#print axioms GorumsV.Tie.C10.backoffArith_good
+#print axioms GorumsV.BackoffP.delay_le_max
+#print axioms GorumsV.BackoffP.delay_ge_base
+#print axioms GorumsV.BackoffP.delay_mono
+#print axioms GorumsV.BackoffP.delay_const
+#print axioms GorumsV.BackoffP.delay_capped
+#print axioms GorumsV.BackoffP.sleep_le
+#print axioms GorumsV.BackoffP.sleep_ge
 #print axioms retried_on_every_request
 #print axioms comes_back_unless_wedged
 #print axioms timer_wait_reachable
